@@ -642,7 +642,15 @@ def recode(fn, ovld, recurse_sym, call_next_sym, newname):
             " to force a refresh, or remove __pycache__ altogether. If that does not work,"
             " avoid calling recurse()/call_next()"
         )
-    tree = ast.parse(textwrap.dedent(src))
+    if src[:1].isspace():
+        # An indented definition (method, nested function) is parsed where it
+        # stands, inside a block: changing the text instead would alter its
+        # multi-line string literals and choke on lines left of the def
+        tree = ast.parse("if 1:\n" + src)
+        tree.body = tree.body[0].body
+        ast.increment_lineno(tree, -1)
+    else:
+        tree = ast.parse(src)
     new = NameConverter(
         anal=ovld.argument_analysis,
         recurse_sym=recurse_sym,
